@@ -4302,7 +4302,7 @@ class IfElseNode(ActionSinkNode, ActionSourceNode):
 
     def adopt_actions_from(self):
         if self.equivalent_actions:
-            return tuple(self.equivalent_actions), self.next
+            return list(self.equivalent_actions), self.next
         else:
             return (), self
 
